@@ -589,7 +589,6 @@ class Lexer(object):
         )
         """
 
-    t_regex_ignore = ' \t'
 
     def t_regex_error(self, token):
         raise ECMARegexSyntaxError(
@@ -667,6 +666,9 @@ class Lexer(object):
         # unicode bom
         u'\uFEFF'
     )
+
+    # the same white space may precede a regular expression literal
+    t_regex_ignore = t_ignore
 
     t_NUMBER = r"""
     (?:
